@@ -7,10 +7,13 @@
    object of the right shape (new objects are), Unpack of a field (any nesting, all three composite modes) or of a
    message returns a non-negative count or an error for EVERY byte string: the model's Panic outcomes (slice bounds,
    index, state mismatch) and its fuel exhaustion (the TLV loop consumes at least one byte per iteration) are
-   unreachable (C04_field_no_panic, C04_message_no_panic). Wall-clock time and allocation are runtime behaviour
+   unreachable (C04_field_no_panic, C04_message_no_panic). The size of what the decoders and
+   primitive fields produce is bounded by the bytes actually consumed (C04_decode_output_bounded, C04_prim_size_bounded).
+   Wall-clock time and the allocator's behaviour are runtime behaviour
    observed by the harness only (each case runs in a child process under ulimit -v and a timeout). *)
 From Iso Require Import Model.Base Model.Padding Model.Encoding Model.Prefix Model.Bitmap Model.Spec Model.Field
      Proofs.BaseLemmas Proofs.EncodingProofs Proofs.PrefixProofs Proofs.FieldProofs Proofs.BitmapProofs Proofs.CompositeProofs Proofs.NoPanicProofs.
+From Iso Require Import Proofs.AllocProofs.
 From Iso Require Import Model.Message Proofs.MessageRoundtrip Proofs.CoherenceCheck Gen.ShippedSpecs.
 
 Theorem C04_enc_decode_total : forall e d n, match enc_decode e d n with Ok _ | Err _ => True | _ => False end.
@@ -63,3 +66,15 @@ Print Assumptions C04_shipped_specs.
 Example C04_ex : is_err (dec_len PBerTLV 0 [x88; xff; xff; xff; xff; xff; xff; xff; xff]) = true /\
                  is_err (enc_decode EncLBCD [x12] 1099511627776) = true.
 Proof. split; vm_compute; reflexivity. Qed.
+
+(* allocation follows the input that is present, never an announced length: what a decoder returns is at most twice the
+   bytes it consumed (nibbles to characters, Latin-1 to UTF-8), and what a primitive field holds after an accepted
+   Unpack at most four times (a Hex field keeps the text form) *)
+Theorem C04_decode_output_bounded : forall e d n v r, enc_decode e d n = Ok (v, r) -> zlen v <= 2 * r /\ 0 <= r <= zlen d.
+Proof. exact decode_output_bounded. Qed.
+Print Assumptions C04_decode_output_bounded.
+
+Theorem C04_prim_size_bounded : forall p st0 d st n, 0 <= ps_len p -> ps_packer p = PkDefault -> prim_unpack p st0 d = (st, UOk n) ->
+  prim_size st <= 4 * n /\ 0 <= n <= zlen d.
+Proof. exact prim_unpack_size. Qed.
+Print Assumptions C04_prim_size_bounded.
